@@ -102,10 +102,13 @@ func (mw multList) Register(id uint64) WaitResult {
 
 func (mw multList) Trigger(id uint64, x interface{}) {
 	w := mw[id%uint64(len(mw))]
+	// the result is stored and the waiter signalled under the lock: otherwise a waiter that gives up between the
+	// delete and the signal finds its id unregistered, hands its (still empty) channel back to the pool, and the
+	// late signal wakes the next request that got this channel, with a result that is not its own
 	w.l.Lock()
+	defer w.l.Unlock()
 	rd := w.m[id]
 	delete(w.m, id)
-	w.l.Unlock()
 	if rd != nil {
 		rd.value = x
 		//close(rd.done)
